@@ -22,8 +22,8 @@ import time
 
 from vf import boot, findings
 
-RUN_DIR = os.path.join(boot.BUILD, "run")
-EVID_DIR = os.path.join(boot.VERIF, "evidence")
+RUN_DIR = os.path.join(os.environ.get("VERIF_RUN_DIR") or os.path.join(boot.BUILD, "run"), "p%d" % os.getpid())
+EVID_DIR = os.environ.get("VERIF_EVIDENCE_DIR") or os.path.join(boot.VERIF, "evidence")
 
 
 def jobs():
@@ -208,6 +208,9 @@ def main(mod, tier, seed, replay=None):
         if h in printed:
             continue
         printed.add(h)
+        if len(viol_lines) >= 60:
+            viol_lines.append((None, v))
+            continue
         os.makedirs(rep_dir, exist_ok=True)
         path = os.path.join(rep_dir, "%s.json" % h)
         with open(path, "w") as fh:
@@ -217,6 +220,10 @@ def main(mod, tier, seed, replay=None):
     for key, (k, vs) in sorted(known_hit.items()):
         print("KNOWN-FINDING: property=%s %s [%s; %d case(s) this run, e.g. %s]" % (
             pid, k["description"], key, len(vs), str(vs[0].get("message"))[:160]))
+    import shutil
+
+    if not agg["problems"]:
+        shutil.rmtree(RUN_DIR, ignore_errors=True)
     for path, v in viol_lines[:50]:
         print("VIOLATION property=%s replay=%s" % (pid, path))
         print("  mechanism=%s: %s" % (v.get("mechanism"), str(v.get("message"))[:600]))
